@@ -11,7 +11,9 @@ for mp in sorted(glob.glob(os.path.join(here, "seeded", "*", "meta.json"))):
     for prop, r in det.items():
         if r.get("violations", 0) > 0:
             first = (r.get("first") or [""])[0]
-            h = first[first.find("[") + 1:first.find("]")] if "[" in first else ""
+            import re
+            m = re.search(r"\[([a-z0-9_]+)\] values=", first)
+            h = m.group(1) if m else ""
             cells.append("**%s** VIOLATION (%s)" % (prop, h))
         else:
             cells.append("%s exit %s" % (prop, r.get("exit")))
